@@ -159,7 +159,8 @@ def mkOpts (j : Json) : Opts :=
     dataFirst := bool! (fld j "data_first_search")
     castKeywordStr := bool! (fld j "cast_keyword_str")
     maxParams := optNat (fld j "max_params")
-    minParams := optNat (fld j "min_params") }
+    minParams := optNat (fld j "min_params")
+    override := bool! (fld j "override") }
 
 def mkLegacy (j : Json) : Legacy :=
   { seqIndex := bool! (fld j "seqIndex"), tupleMissing := bool! (fld j "tupleMissing"),
@@ -247,10 +248,28 @@ def handle (j : Json) : Json :=
   | "schema" =>
     let D := mkData S W (bool! (fld j "str_keys"))
     let P := mkParser j
-    let post : M Unit := do let _ ← runAct .nil (S.find 7 2 0); pure ()
+    let hook (k : Nat) : M Unit := do let _ ← runAct .nil (S.find 7 2 k); pure ()
+    let optOpts (x : Json) : Option Opts := match x with | .null => none | x => some (mkOpts x)
+    let isSchema (x : Json) : Bool := str! x == "Schema" || (match x with | .null => true | _ => false)
+    let schema := isSchema (fld j "cls_kind")
     match str! (fld j "entry") with
-    | "from" => outJson kvJson (initDataclass D L o P post (DV.ofJson (fld j "input")) {})
-    | _ => outJson kvJson (classInit D L o P post (kwOf (fld j "kwargs")) {})
+    | "from" =>
+      outJson kvJson (initDataclass D L o (optOpts (fld j "given")) (optOpts (fld j "ctx")) P (hook 0)
+        (DV.ofJson (fld j "input")) schema {})
+    | "nested" =>
+      -- an outer class with one field (id 90) whose type is the data class described by this case: the field's
+      -- converter is `transform_dataclass` = init_dataclass with the outer context
+      let outer := fld j "outer"
+      let oo := mkOpts (fld outer "opts")
+      let inner : DV → M DV := fun v => do
+        let kv ← initDataclass D L o none (some oo) P (hook 1) v schema
+        pure (DV.map (kv.map fun (k, x) => (DV.tok k, x)))
+      let conv1 : Ty → DV → M DV := fun t v => if t == 800 then inner v else W.conv t v
+      let W1 : World DV := { W with conv := conv1 }
+      let D1 := mkData S W1 true
+      let Pout : ParserDecl DV := { fields := [{ id := 90, aliases := [90], ty := some 800, required := true }] }
+      outJson kvJson (classCall D1 L oo Pout (hook 0) [(90, DV.ofJson (fld j "input"))] (isSchema (fld outer "cls_kind")) {})
+    | _ => outJson kvJson (classCall D L o P (hook 0) (kwOf (fld j "kwargs")) schema {})
   | "func" =>
     let D := mkData S W true
     let P := mkParser j
